@@ -1,11 +1,15 @@
 /-
   C01 — the tau* theory has exactly the program's HT models.
 
-  Status: the key lemma (`val` denotes the value set of a term, for every operator including
-  partial division/modulo and intervals) is proved. The statement at full strength
-  (`TauStarCorrect`) is kept visible; the rule level is in Proofs/TauStarRules when present.
+  Status: proved at full strength (`tau_star_correct`): term level (`val` denotes the value set of a
+  term, for every operator including partial division/modulo and intervals; the freshness of the
+  names `I, J, K, Q, R` is proved, not assumed), body atoms (`tau_b`, fresh `Z` names by
+  pigeonhole), rules (all three head kinds, global head variables `V<n>` fresh for the whole
+  program) and programs, at both worlds of every HT interpretation. The only hypothesis is that the
+  index arithmetic of the global variables does not overflow (`globalsPanic = false`; the overflow
+  itself is the C16 known finding).
 -/
-import AnthemModel.Proofs.ValCorrect
+import AnthemModel.Proofs.TauStarRules
 namespace Anthem.C01
 open Asp
 
@@ -15,6 +19,41 @@ open Asp
 def TauStarCorrect : Prop :=
   ∀ (P : Program), globalsPanic P = false → ∀ (M : HTI), M.Sub → ∀ (w : World) (ρ : Asg),
     (∀ F ∈ tauStar P, ht M F w ρ) ↔ progSat M w P
+
+/-- **C01.** For every program whose global-variable indices do not overflow, every HT
+    interpretation (no relation between `H` and `T` is even needed), world and assignment. -/
+theorem tau_star_correct : TauStarCorrect :=
+  fun P hp M _ w ρ => tauStar_correct P hp M w ρ
+
+/-- Stable models (with input predicates) are exactly the equilibrium models of the tau* theory:
+    the reference notion `Stable` can be read entirely through `tauStar`. -/
+theorem stable_iff_equilibrium (P : Program) (hp : globalsPanic P = false) (ins : List Pred)
+    (T : PredI) (fc : FcI) (ρ : Asg) :
+    Stable P ins T fc ↔
+      ((∀ F ∈ tauStar P, ht ⟨T, T, fc⟩ F .there ρ) ∧
+        ∀ H : PredI, (∀ q a, H q a → T q a) →
+          (∀ q a, (⟨q, a.length⟩ : Pred) ∈ ins → (H q a ↔ T q a)) →
+          (∀ F ∈ tauStar P, ht ⟨H, T, fc⟩ F .here ρ) → ∀ q a, T q a → H q a) := by
+  unfold Stable
+  rw [tauStar_correct P hp ⟨T, T, fc⟩ .there ρ]
+  refine and_congr_right fun _ => forall_congr' fun H => imp_congr_right fun _ =>
+    imp_congr_right fun _ => ?_
+  rw [tauStar_correct P hp ⟨H, T, fc⟩ .here ρ]
+
+/-- The term level without any premise, for the output variables the translator uses. -/
+theorem val_denotes_values_general (M : HTI) (w : World) (t : Term) (z : String) (ρ : Asg) :
+    ht M (val t ⟨z, .general⟩) w ρ ↔ vals (σOf ρ) t (ρ ⟨z, .general⟩) :=
+  val_correct_general M w t z ρ
+
+/-- Body atoms: `tau_b` means "some value tuple is in the extent" / "some pair of values is related". -/
+theorem tau_b_correct (M : HTI) (w : World) (f : BodyAtom) (ρ : Asg) :
+    ht M (tauB f) w ρ ↔ bodyAtomSat M w (σOf ρ) f := tauB_sem M w f ρ
+
+/-- Non-vacuity of the hypothesis and of the statement: a program with an interval in the head, a
+    partial operation and a choice rule does not overflow, and its translation has three formulas. -/
+example : globalsPanic [⟨.basic ⟨"p", [.bin .interval (.pre (.num 1)) (.var "N")]⟩, [.lit ⟨.pos, ⟨"q", [.var "N"]⟩⟩]⟩,
+    ⟨.choice ⟨"q", [.bin .div (.var "X") (.pre (.num 2))]⟩, [.lit ⟨.neg, ⟨"p", [.var "X"]⟩⟩]⟩,
+    ⟨.falsity, [.cmp .lt (.var "V1") (.pre (.num 0))]⟩] = false := by decide
 
 /-- **Key lemma (all term operators).** `val t z` holds iff the value of `z` is one of the
     values of `t` — including multi-valued intervals, partial division and modulo, and arithmetic
